@@ -273,23 +273,27 @@ class Focused(Part):
             out, plan = self._run(case, explore.line_sparse(single[1]), preempt_at=(single[0],))
             judge_out(self, case, out, plan)
             return dict(nontrivial=True)
-        out0, plan = self._run(case, dict(pre=[], blk=[]), count_lines=True)
-        judge_out(self, case, out0, plan)
-        n = out0.lines
+        runs, viol, n = 0, [], 0
+        for order in (0, 1):
+            out0, plan = self._run(case, explore.base_sparse(order), count_lines=True)
+            judge_out(self, case, out0, plan)
+            n = out0.lines
 
-        def one(line, alt):
-            out, plan = self._run(case, explore.line_sparse(alt), preempt_at=(line,))
-            try:
-                judge_out(self, case, out, plan)
-            except Violation as v:
-                v.sched = out.sched
-                raise
-            return out.sched
+            def one(line, alt):
+                out, plan = self._run(case, explore.line_sparse(alt), preempt_at=(line,))
+                try:
+                    judge_out(self, case, out, plan)
+                except Violation as v:
+                    v.sched = out.sched
+                    raise
+                return out.sched
 
-        runs, found, inc = explore.single_preemptions(one, n, explore.plan_stride(n, ctx.tier), ctx.seed, max_runs=None if ctx.tier == "thorough" else 900)
-        viol = [(v, dict(case, single=list(la))) for v, la in found]
-        if inc:
-            ctx.count("inconclusive_runs", inc)
+            r, found, inc = explore.single_preemptions(one, n, explore.plan_stride(n, ctx.tier, 450), ctx.seed, order=order,
+                                                       max_runs=None if ctx.tier == "thorough" else 500)
+            runs += r
+            viol += [(v, dict(case, single=list(la))) for v, la in found]
+            if inc:
+                ctx.count("inconclusive_runs", inc)
         return dict(count=runs, nontrivial_count=runs, violations=viol[:3], nontrivial=True,
                     labels=["shape:" + "-".join(x[0] for x in case["history"])],
                     sample={"history": case["history"], "focus_lines": n, "runs": runs})
